@@ -428,6 +428,16 @@ pub struct World {
     pub attack_log: Vec<(u64, String)>,
     /// last 16 bytes of every datagram the attacker put on the link
     pub attack_tails: Vec<Vec<u8>>,
+    /// connections that were handed a datagram whose last 16 bytes are the reset token the peer
+    /// endpoint issued for the connection ID the connection was sending to at that moment
+    pub exact_reset_seen: std::collections::BTreeSet<usize>,
+    /// (n, hold_us): the n-th Incoming (counted over all server endpoints, after Retry handling) is held
+    /// for `hold_us` and then accepted with a server configuration whose idle timeout is shorter than
+    /// that, so that `Endpoint::accept` abandons it as stale
+    pub stale_accepts: Vec<(u32, u32)>,
+    pub incoming_seen: u32,
+    stale_due: Vec<Vec<u8>>,
+    pub stale_abandoned: u32,
     pub last_incoming_size: u64,
     /// check the 3x anti-amplification inequality on every datagram a server connection emits
     pub check_amp: bool,
@@ -520,7 +530,7 @@ impl World {
             cur_rx_dgram: 0,
             attacks: vec![],
             attack_log: vec![],
-            attack_tails: vec![],
+            attack_tails: vec![], exact_reset_seen: Default::default(), stale_accepts: vec![], incoming_seen: 0, stale_due: vec![], stale_abandoned: 0,
             last_incoming_size: 0,
             check_amp: true,
             client_token_store: None,
@@ -988,6 +998,28 @@ impl World {
                             token = self.reset_token_for(from_ep, &other);
                         }
                         TokenChoice::NearMiss(bit) => token[(*bit as usize / 8) % 16] ^= 1 << (bit % 8),
+                        TokenChoice::IssuedNotInUse(sel) => {
+                            // tokens the victim has been given in NEW_CONNECTION_ID frames (readable under
+                            // SimCrypto) for connection IDs other than the one it is sending to
+                            let mut issued: Vec<[u8; 16]> = vec![];
+                            for r in &self.trace {
+                                if let Rec::Tx { conn: tc, dgrams, .. } = r {
+                                    if *tc == sender {
+                                        for fr in dgrams.iter().flat_map(|d| d.pkts.iter()).flat_map(|p| p.frames.iter().flatten()) {
+                                            if let OF::NewConnectionId { cid: ncid, reset_token, .. } = fr {
+                                                if *ncid != cid && !issued.contains(reset_token) {
+                                                    issued.push(*reset_token);
+                                                }
+                                            }
+                                        }
+                                    }
+                                }
+                            }
+                            if issued.is_empty() {
+                                continue;
+                            }
+                            token = issued[(*sel as usize * issued.len()) >> 8];
+                        }
                     }
                     if c.bytes.len() < 22 {
                         c.bytes.resize(40, 0x3c);
@@ -1303,6 +1335,13 @@ impl World {
                         }
                     }
                     self.conns[k].last_rx_us = self.now;
+                    if size >= 21 {
+                        let rc = self.conns[k].c.verif_remote_cid();
+                        let tail = &f.bytes[size - 16..];
+                        if (0..self.eps.len()).any(|e| e != ep && self.reset_token_for(e, &rc)[..] == *tail) {
+                            self.exact_reset_seen.insert(k);
+                        }
+                    }
                     let before = self.conns[k].c.stats().frame_rx.datagram;
                     let mut authed_before = 0;
                     if self.track_auth {
@@ -1426,6 +1465,14 @@ impl World {
             }
             return;
         }
+        let nth = self.incoming_seen;
+        self.incoming_seen += 1;
+        if let Some((_, hold)) = self.stale_accepts.iter().find(|(n, _)| *n == nth).copied() {
+            let at = self.now + hold.max(2000) as u64;
+            self.stale_due.push(inc.orig_dst_cid().to_vec());
+            self.eps[ep].pending_incoming.push((at, inc, size));
+            return;
+        }
         if srv.accept_delay_us > 0 {
             let at = self.now + srv.accept_delay_us as u64;
             self.eps[ep].pending_incoming.push((at, inc, size));
@@ -1451,7 +1498,13 @@ impl World {
         // transport config with a fresh cc log for this connection
         let cc_log = Arc::new(Mutex::new(CcLog::default()));
         let mut sc = self.server_config();
-        sc.transport_config(Arc::new(build_tc(&self.spec.server_tc, Some(cc_log.clone()))));
+        let mut tc_spec = self.spec.server_tc.clone();
+        let stale = self.stale_due.iter().position(|a| *a == odcid).map(|i| self.stale_due.remove(i)).is_some();
+        if stale {
+            // an application that kept the Incoming waiting for longer than its idle timeout
+            tc_spec.idle_ms = Some(1);
+        }
+        sc.transport_config(Arc::new(build_tc(&tc_spec, Some(cc_log.clone()))));
         match self.eps[ep].ep.accept(inc, now, &mut buf, Some(Arc::new(sc))) {
             Ok((ch, c)) => {
                 // pair with the client connection whose initial DCID this is
@@ -1500,6 +1553,9 @@ impl World {
                 }
             }
             Err(e) => {
+                if stale && matches!(e.cause, quinn_proto::ConnectionError::TimedOut) {
+                    self.stale_abandoned += 1;
+                }
                 if let Some(t) = e.response {
                     let bytes = buf[..t.size].to_vec();
                     let pkts = self.observe_dgram(None, &bytes, 0);
